@@ -1,5 +1,5 @@
 (* Props/C10.v -- property theorems for C10 (tier set operations). *)
-From PraatIO Require Import Tier.TierModel Tier.CtorProofs Tier.CropProofs Tier.EraseProofs Tier.InsertProofs Tier.SetProofs.
+From PraatIO Require Import Tier.TierModel Tier.CtorProofs Tier.CropProofs Tier.EraseProofs Tier.InsertProofs Tier.SetProofs Tier.UnionPProofs.
 
 (* difference(A,B) is labelled exactly where A is and B is not, with A's labels;
    total and well-formed for all wf A and any B with positive intervals *)
@@ -65,3 +65,23 @@ Theorem C10_merge_labels_explicit A B :
            (hull_max (merge_entries (ients A) (ients B)) (imax A))).
 Proof. exact (merge_labels_explicit A B). Qed.
 Print Assumptions C10_merge_labels_explicit.
+
+(* point tiers: union(A,B) contains exactly the union of the time points ... *)
+Theorem C10_point_union_times A B t' : union_p A B = Ok t' ->
+  forall x, In x (ptimes (pents t')) <-> In x (ptimes (pents A)) \/ In x (ptimes (pents B)).
+Proof. exact (union_p_times A B t'). Qed.
+Print Assumptions C10_point_union_times.
+
+(* ... and, for operands whose points have distinct times, a time both have carries the two labels joined "a-b"
+   (A's first), a time only one of them has keeps that point's label (labels trimmed as every constructor does) *)
+Theorem C10_point_union_labels A B t' :
+  NoDup (ptimes (pents A)) -> NoDup (ptimes (pents B)) -> union_p A B = Ok t' ->
+  forall x, lab_p (pents t') x =
+    match lab_p (pents A) x, lab_p (pents B) x with
+    | Some a, Some b => Some (join DASH [strip a; strip b])
+    | Some a, None => Some (strip a)
+    | None, Some b => Some (strip b)
+    | None, None => None
+    end.
+Proof. exact (union_p_labels A B t'). Qed.
+Print Assumptions C10_point_union_labels.
